@@ -134,8 +134,8 @@ class SDM():
         # Collect needsymm list:
         for sdm_item in self.sdm_list:
             if sdm_item.covalent:
-                # all_atoms[sdm_item.a1].molindex < 1 ...
-                if sdm_item.atom1.molindex < 1 or sdm_item.atom1.molindex > 6:
+                # Atoms without a molecule number (lone hydrogen atoms) are not grown:
+                if sdm_item.atom1.molindex < 1:
                     continue
                 for n, symop in enumerate(self.shx.symmcards):
                     if sdm_item.atom1.part.n != 0 and sdm_item.atom2.part.n != 0 \
